@@ -580,6 +580,26 @@ func runFaults(r *vs.Rand, i int, seed uint64, out *vs.Out) {
 		rr := vs.CaseRand(seed+7777, i)
 		sc := buildScenario(rr, cfg)
 		defer sc.w.close()
+		if cfg.Finalize && rr.Chance(25) {
+			// a parent that is being finalized right now: pending deletion, still carrying the controller's finalizer, and a
+			// finalize hook that says "done" - so the finalizer removal (a read-modify-write of the parent) happens in this sync
+			finName := "metacontroller.io/compositecontroller-" + cfg.Name
+			sc.w.sim.Mutate(parentGroup, cfg.parentResource(), nsOfKey(sc.key), "p1", func(o map[string]interface{}) {
+				md := o["metadata"].(map[string]interface{})
+				if _, ok := md["deletionTimestamp"]; !ok {
+					md["deletionTimestamp"] = "2024-01-01T00:00:09Z"
+				}
+				fs, _ := md["finalizers"].([]interface{})
+				var keep []interface{}
+				for _, f := range fs {
+					if f != finName && f != "foregroundDeletion" && f != "orphan" {
+						keep = append(keep, f)
+					}
+				}
+				md["finalizers"] = append(keep, finName)
+				o["spec"].(map[string]interface{})["hookMode"] = "finalize-now"
+			})
+		}
 		var fk [][4]string
 		foreign, fk, _ = foreignOccupants(sc)
 		if foreign && rr.Chance(70) {
@@ -966,6 +986,7 @@ func runInterleave(r *vs.Rand, i int, seed uint64, out *vs.Out) {
 	sc.revNameBefore = sc.revName()
 	sc.memoBefore = w.memoDump()
 	sc.custBefore = w.customizeCached("p1")
+	sc.custExpected = w.customizeExpected("p1")
 	outcome, detail := w.runSync(sc.key)
 	w.noteApplies()
 	line := sc.traceLine(i, seed, storeBefore, cacheBefore, outcome, detail)
